@@ -2,7 +2,7 @@ import Rtsp.Model.Secure
 /-
 C17, roll-over counter: pion's `nextRolloverCount` / `updateRolloverCount` recover the true
 48-bit packet index from the 16-bit sequence number whenever the packet lies within 2^15 of the
-highest index processed so far.
+highest index processed so far (and use the signalled ROC for the first packet).
 -/
 namespace Rtsp.Sec
 open Rtsp.Facts
@@ -15,51 +15,71 @@ theorem or_low (R q : Nat) (h : q < 65536) : (R * 65536) ||| q = R * 65536 + q :
   omega
 
 /-- the first packet of an SSRC (fresh state or after `SetROC`): the signalled ROC is used as is -/
-theorem nextRoc_unprocessed (s : SsrcState) (q : Nat) (h : s.processed = false) :
-    nextRoc s q = (s.roc, 0, s.roc == 0 && s.roc == Sec.maxROC) := by
-  simp [nextRoc, h]
+theorem nextRoc_unprocessed (i q : Nat) :
+    nextRoc { index := i, processed := false } q =
+      (i / 65536 % 4294967296, 0, i / 65536 % 4294967296 == 0 && i / 65536 % 4294967296 == 4294967295) := by
+  simp [nextRoc, SsrcState.roc, two16, two32, Sec.maxROC]
 
 theorem updateRoc_unprocessed (R q : Nat) (d : Int) (hq : q < 65536) :
     updateRoc { index := R * 65536, processed := false } q d = { index := R * 65536 + q, processed := true } := by
   simp [updateRoc, or_low R q hq]
 
-/-- estimation is exact within the window -/
-theorem nextRoc_window (s : SsrcState) (j : Nat) (hp : s.processed = true)
-    (hi : s.index < two48) (hj : j < two48)
-    (h1 : (j : Int) - (s.index : Int) < 32768) (h2 : (s.index : Int) - (j : Int) < 32768) :
-    nextRoc s (j % 65536) = (j / 65536, (j : Int) - (s.index : Int), false) := by
-  obtain ⟨i, p⟩ := s
-  simp only at hp hi h1 h2
-  subst hp
-  simp only [nextRoc, SsrcState.roc, SsrcState.seq, Sec.seqNumMedian, Sec.seqNumMax, Sec.maxROC, two16, two32, two48,
-    if_true] at *
-  by_cases c1 : i > 32768
-  · by_cases c2 : ((i % 65536 : Nat) : Int) < ((32768 : Nat) : Int)
-    · by_cases c3 : ((j % 65536 : Nat) : Int) - ((i % 65536 : Nat) : Int) > ((32768 : Nat) : Int)
-      · simp only [c1, c2, c3, if_true]
-        refine Prod.ext ?_ (Prod.ext ?_ ?_) <;> simp <;> omega
-      · simp only [c1, c2, c3, if_true, if_false]
-        refine Prod.ext ?_ (Prod.ext ?_ ?_) <;> simp <;> omega
-    · by_cases c3 : ((i % 65536 : Nat) : Int) - ((32768 : Nat) : Int) > ((j % 65536 : Nat) : Int)
-      · simp only [c1, c2, c3, if_true, if_false]
-        refine Prod.ext ?_ (Prod.ext ?_ ?_) <;> simp <;> omega
-      · simp only [c1, c2, c3, if_true, if_false]
-        refine Prod.ext ?_ (Prod.ext ?_ ?_) <;> simp <;> omega
-  · simp only [c1, if_false]
-    refine Prod.ext ?_ (Prod.ext ?_ ?_) <;> simp <;> omega
 
-/-- after a packet inside the window the state holds the highest index seen -/
-theorem updateRoc_window (s : SsrcState) (j : Nat) (hp : s.processed = true)
-    (hi : s.index < two48) (hj : j < two48) :
-    updateRoc s (j % 65536) ((j : Int) - (s.index : Int)) = { index := max s.index j, processed := true } := by
-  obtain ⟨i, p⟩ := s
-  simp only at hp hi
-  subst hp
-  simp only [updateRoc, two64, two48] at *
-  by_cases c : (j : Int) - (i : Int) > 0
-  · have e : (i + ((j : Int) - (i : Int)).toNat) % 18446744073709551616 = max i j := by omega
-    simp [c, e]
+/-- `nextRoc` as plain arithmetic -/
+theorem nextRoc_processed (i q : Nat) :
+    nextRoc { index := i, processed := true } q =
+      (let r := i / 65536 % 4294967296
+       let l : Int := ((i % 65536 : Nat) : Int)
+       let g : Nat × Int :=
+         if i > 32768 then
+           if l < 32768 then
+             if (q : Int) - l > 32768 then ((r + 4294967296 - 1) % 4294967296, (q : Int) - l - 65536) else (r, (q : Int) - l)
+           else
+             if l - 32768 > (q : Int) then ((r + 1) % 4294967296, (q : Int) - l + 65536) else (r, (q : Int) - l)
+         else (r, (q : Int) - l)
+       (g.1, g.2, g.1 == 0 && r == 4294967295)) := by
+  simp only [nextRoc, SsrcState.roc, SsrcState.seq, Sec.seqNumMedian, Sec.seqNumMax, Sec.maxROC, two16, two32, if_true]
+  rfl
+theorem nextRoc_window' (i j : Nat)
+    (hi : i < 281474976710656) (hj : j < 281474976710656)
+    (h1 : (j : Int) - (i : Int) < 32768) (h2 : (i : Int) - (j : Int) < 32768) :
+    nextRoc { index := i, processed := true } (j % 65536) = (j / 65536, (j : Int) - (i : Int), false) := by
+  rw [nextRoc_processed]
+  have e3 : (j / 65536 == 0 && i / 65536 % 4294967296 == 4294967295) = false := by
+    simp only [Bool.and_eq_false_iff, beq_eq_false_iff_ne]; omega
+  have e4 : (j / 65536 == 0 && j / 65536 == 4294967295) = false := by
+    simp only [Bool.and_eq_false_iff, beq_eq_false_iff_ne]; omega
+  by_cases c1 : i > 32768
+  · by_cases c2 : ((i % 65536 : Nat) : Int) < 32768
+    · by_cases c3 : ((j % 65536 : Nat) : Int) - ((i % 65536 : Nat) : Int) > 32768
+      · simp only [c1, c2, c3, if_true]
+        have e1 : (i / 65536 % 4294967296 + 4294967296 - 1) % 4294967296 = j / 65536 := by omega
+        have e2 : ((j % 65536 : Nat) : Int) - ((i % 65536 : Nat) : Int) - 65536 = (j : Int) - (i : Int) := by omega
+        rw [e1, e2]; first | rw [e3] | rw [e4]
+      · simp only [c1, c2, c3, if_true, if_false]
+        have e1 : i / 65536 % 4294967296 = j / 65536 := by omega
+        have e2 : ((j % 65536 : Nat) : Int) - ((i % 65536 : Nat) : Int) = (j : Int) - (i : Int) := by omega
+        rw [e1, e2]; first | rw [e3] | rw [e4]
+    · by_cases c3 : ((i % 65536 : Nat) : Int) - 32768 > ((j % 65536 : Nat) : Int)
+      · simp only [c1, c2, c3, if_true, if_false]
+        have e1 : (i / 65536 % 4294967296 + 1) % 4294967296 = j / 65536 := by omega
+        have e2 : ((j % 65536 : Nat) : Int) - ((i % 65536 : Nat) : Int) + 65536 = (j : Int) - (i : Int) := by omega
+        rw [e1, e2]; first | rw [e3] | rw [e4]
+      · simp only [c1, c2, c3, if_true, if_false]
+        have e1 : i / 65536 % 4294967296 = j / 65536 := by omega
+        have e2 : ((j % 65536 : Nat) : Int) - ((i % 65536 : Nat) : Int) = (j : Int) - (i : Int) := by omega
+        rw [e1, e2]; first | rw [e3] | rw [e4]
+  · simp only [c1, if_false]
+    have e1 : i / 65536 % 4294967296 = j / 65536 := by omega
+    have e2 : ((j % 65536 : Nat) : Int) - ((i % 65536 : Nat) : Int) = (j : Int) - (i : Int) := by omega
+    rw [e1, e2]; first | rw [e3] | rw [e4]
+theorem updateRoc_window' (i j : Nat) (hi : i < 281474976710656) (hj : j < 281474976710656) :
+    updateRoc { index := i, processed := true } (j % 65536) ((j : Int) - (i : Int)) = { index := max i j, processed := true } := by
+  by_cases c : i < j
+  · have e : (i + (j - i)) % 18446744073709551616 = max i j := by omega
+    simp [updateRoc, two64, c, e]
   · have e : max i j = i := by omega
-    simp [c, e]
+    simp [updateRoc, c, e]
+
 
 end Rtsp.Sec
